@@ -6,11 +6,13 @@ use std::io::Write;
 use std::sync::{Arc, Barrier};
 use std::thread;
 
-const SRCS: [&str; 4] = [
-    "(def (Report (x 0))) (when true (:= Report.x (+ Report.x 1)) (report))",
-    "(def (c 1)) (when (> Micros c) (:= Cwnd 5))",
-    "(def (Report (x 0))) (when true (:= Report.x (+ 1)))",   // does not compile: still consumes a uid
-    "not a program",
+const SRCS: [&[u8]; 6] = [
+    b"(def (Report (x 0))) (when true (:= Report.x (+ Report.x 1)) (report))",
+    b"(def (c 1)) (when (> Micros c) (:= Cwnd 5))",
+    b"(def (Report (x 0))) (when true (:= Report.x (+ 1)))",   // does not compile: still consumes a uid
+    b"not a program",
+    b"(def (c 1)) \xff\xfe (when true (report))",               // not UTF-8: rejected before anything is allocated
+    b"",
 ];
 
 pub fn run_c17(tier: &str, seed: u64, out: &mut dyn Write) {
@@ -30,7 +32,7 @@ pub fn run_c17(tier: &str, seed: u64, out: &mut dyn Write) {
                     b.wait();
                     for _ in 0..m {
                         let src = *rr.pick(&SRCS);
-                        if let Some(Ok((bin, sc))) = catch(|| portus::lang::compile(src.as_bytes(), &[])) {
+                        if let Some(Ok((bin, sc))) = catch(|| portus::lang::compile(src, &[])) {
                             // the uid placed in an install message is the scope's; a clone keeps it
                             let c = sc.clone();
                             let _ = bin;
